@@ -482,8 +482,8 @@ Definition store_count (m : string) : option nat :=
 
 (* ---- the pure fragment ----
    A function is a pure helper when it has no inout parameter and its body is a
-   sequence of initialised declarations ended by `return e;` whose expressions are
-   pure; an expression is pure when it contains no Store / GetDimensions / Interlocked
+   sequence of local declarations, assignments to its own locals and
+   `buffer.GetDimensions(x)`, ended by `return e;`, whose expressions are pure; an expression is pure when it contains no Store / GetDimensions / Interlocked
    method call and calls only intrinsics and pure helpers.  Every generated helper
    (naga_div, naga_mod, naga_neg, naga_f2i32, naga_extractBits, Construct..., ZeroValue...,
    GetMat...On...) is pure.  Pure expressions are evaluated by [peval], which reads the
@@ -499,6 +499,7 @@ Fixpoint pure_expr (fuel : nat) (e : expr) {struct fuel} : bool :=
           | [SReturn (Some r)] => pure_expr f r
           | SDecl _ _ (Some i) :: b' => pure_expr f i && ps b'
           | SDecl _ _ None :: b' => ps b'
+          | SAssign None l r :: b' => pure_expr f l && pure_expr f r && ps b'
           | SExpr (EMethod o m [EVar _]) :: b' => String.eqb m "GetDimensions" && pure_expr f o && ps b'
           | _ => false
           end in
@@ -590,6 +591,45 @@ Fixpoint peval (fuel : nat) (st : state) (e : expr) {struct fuel} : cres :=
                     end
                   | _, _ => Fail "unsupported: call arity"
                   end in
+            (* lvalue inside a helper body: a local variable and a component path *)
+            let plv :=
+                fix plv (st' : state) (e : expr) {struct e} : result (string * list nat * ubs) :=
+                  match e with
+                  | EVar x => match lookup_var x (st_locals st') with
+                              | Some _ => Done (x, [], [])
+                              | None => Fail "unsupported: a helper assigns to a non-local" end
+                  | EMember b m =>
+                    match plv st' b with
+                    | Done (x, path, u0) =>
+                      match static_type 32 st' b with
+                      | Some (TNamed n) =>
+                        match struct_members n with
+                        | Some ms => match member_index m ms 0 with
+                                     | Some (i, _) => Done (x, (path ++ [i])%list, u0)
+                                     | None => Fail ("unsupported: no member " ++ m ++ " in struct " ++ n) end
+                        | None => Fail ("unsupported: unknown struct " ++ n)
+                        end
+                      | Some (TVec _ _) =>
+                        match swizzle_indices m with
+                        | Some [i] => Done (x, (path ++ [i])%list, u0)
+                        | _ => Fail "unsupported: assignment to a multi-component swizzle"
+                        end
+                      | _ => Fail ("unsupported: cannot type the base of lvalue member ." ++ m)
+                      end
+                    | OutOfFuel => OutOfFuel | Fail m' => Fail m'
+                    end
+                  | EIndex b i =>
+                    match plv st' b, peval fu st' i with
+                    | Done (x, path, u0), Done (vi, u1) =>
+                      match index_nat vi with
+                      | Done n => Done (x, (path ++ [n])%list, (u0 ++ u1)%list)
+                      | OutOfFuel => OutOfFuel | Fail m' => Fail m'
+                      end
+                    | Done _, OutOfFuel => OutOfFuel | Done _, Fail m' => Fail m'
+                    | OutOfFuel, _ => OutOfFuel | Fail m', _ => Fail m'
+                    end
+                  | _ => Fail "unsupported: expression is not an lvalue"
+                  end in
             match bind (fn_params fn) vs with
             | Done (frame, u1) =>
               let body :=
@@ -609,6 +649,20 @@ Fixpoint peval (fuel : nat) (st : state) (e : expr) {struct fuel} : cres :=
                       match zero_of 16 t with
                       | Done z => go b' (push_local st' x t z)
                       | OutOfFuel => OutOfFuel | Fail m => Fail m
+                      end
+                    | SAssign None l r :: b' =>
+                      match peval fu st' r, plv st' l with
+                      | Done (v, u2), Done (x, path, u3) =>
+                        match assign_path st' x path v with
+                        | Done st'' =>
+                          match go b' st'' with
+                          | Done (w, u4) => Done (w, (u2 ++ u3 ++ u4)%list)
+                          | OutOfFuel => OutOfFuel | Fail m => Fail m
+                          end
+                        | OutOfFuel => OutOfFuel | Fail m => Fail m
+                        end
+                      | Done _, OutOfFuel => OutOfFuel | Done _, Fail m => Fail m
+                      | OutOfFuel, _ => OutOfFuel | Fail m, _ => Fail m
                       end
                     | SExpr (EMethod o m [EVar x]) :: b' =>
                       (* buffer.GetDimensions(x): x receives the size of the buffer in bytes *)
@@ -698,6 +752,17 @@ Fixpoint eval_lvalue (fuel : nat) (st : state) (e : expr) {struct e} : result (s
   | _ => Fail "unsupported: expression is not an lvalue"
   end.
 
+(* Interlocked* (single invocation: sequential): the new content of the location *)
+Definition interlocked_new (f : string) (old v : value) : result value :=
+  if String.eqb f "InterlockedAdd" then check (scalar_bin BAdd old v)
+  else if String.eqb f "InterlockedAnd" then check (scalar_bin BAnd old v)
+  else if String.eqb f "InterlockedOr" then check (scalar_bin BOr old v)
+  else if String.eqb f "InterlockedXor" then check (scalar_bin BXor old v)
+  else if String.eqb f "InterlockedMin" then scalar_min old v
+  else if String.eqb f "InterlockedMax" then scalar_max old v
+  else if String.eqb f "InterlockedExchange" then Done v
+  else Fail ("unsupported: atomic " ++ f).
+
 (* ---- statements and calls with effects ---- *)
 Fixpoint eval_expr (fuel : nat) (st : state) (e : expr) {struct fuel} : result (value * state) :=
   match fuel with
@@ -707,12 +772,61 @@ Fixpoint eval_expr (fuel : nat) (st : state) (e : expr) {struct fuel} : result (
     else
       match e with
       | ECall f args =>
+        if String.prefix "Interlocked" f then
+          (* InterlockedX(lvalue, value[, out original]) on a groupshared location *)
+          match args with
+          | dest :: v :: outs =>
+            vv <~ eval_pure fu st v ;;
+            lv <~ eval_lvalue fu st dest ;; let '(x, path) := lv in
+            match find_var st x with
+            | None => Fail "unsupported: unknown variable"
+            | Some (_, cur) =>
+              old <~ load_path cur path ;;
+              vk <~ match kind_of old with Some k => check (conv_scalar k vv) | None => Fail "unsupported: atomic on a composite" end ;;
+              nw <~ interlocked_new f old vk ;;
+              st1 <~ assign_path st x path nw ;;
+              match outs with
+              | [] => Done (VBool false, st1)
+              | [out] => lo <~ eval_lvalue fu st1 out ;; let '(ox, opath) := lo in
+                         st2 <~ assign_path st1 ox opath old ;; Done (VBool false, st2)
+              | _ => Fail "unsupported: Interlocked arity"
+              end
+            end
+          | _ => Fail "unsupported: Interlocked arity"
+          end
+        else
         if forallb (pure_expr PURE_DEPTH) args then
           vs <~ rmap (eval_pure fu st) args ;;
           fn <~ pick_overload f vs ;;
           call_function fu st fn args vs
         else Fail "unsupported: side effect nested in a call argument"
       | EMethod obj m args =>
+        if String.prefix "Interlocked" m then
+          (* buf.InterlockedX(byte offset, value[, out original]): the word is read with the type of the value *)
+          ov <~ eval_pure fu st obj ;;
+          match ov, args with
+          | VPtr bi [], off :: v :: outs =>
+            match nth_error (st_bufs st) bi with
+            | Some (_, (true, bytes)) =>
+              vo <~ eval_pure fu st off ;; vv <~ eval_pure fu st v ;;
+              o <~ offset_of vo ;; w <~ load_word bytes o ;;
+              old <~ match vv with
+                     | VI32 _ => Done (VI32 w) | VU32 _ => Done (VU32 w)
+                     | _ => Fail "unsupported: atomic value type" end ;;
+              nw <~ interlocked_new m old vv ;;
+              b' <~ store_words bytes o [nw] ;;
+              let st1 := set_buf st bi b' in
+              match outs with
+              | [] => Done (VBool false, st1)
+              | [out] => lo <~ eval_lvalue fu st1 out ;; let '(ox, opath) := lo in
+                         st2 <~ assign_path st1 ox opath old ;; Done (VBool false, st2)
+              | _ => Fail "unsupported: Interlocked arity"
+              end
+            | _ => Fail "unsupported: Interlocked on a read-only or unknown buffer"
+            end
+          | _, _ => Fail "unsupported: Interlocked form"
+          end
+        else
         if negb (forallb (pure_expr PURE_DEPTH) (obj :: args)) && negb (String.eqb m "GetDimensions")
         then Fail "unsupported: side effect nested in a method argument" else
         ov <~ eval_pure fu st obj ;;
